@@ -440,6 +440,35 @@ func extractToxics(repo string, o *out) {
 		o.emit("timeout_ns", "(t : Z) ", "Z", tns, "(wrap64 (t * 1000000))", "", "")
 		o.emit("timeout_positive", "(t : Z) ", "bool", pos, "(0 <? (timeout_ns t))", "", "")
 		o.emit("timeout_rearms", "", "bool", rearm, "false", "", "")
+	}
+	// ------------------------------------------------------------ sends are plain
+	// In every built-in toxic a hand-off to the next stage is a plain statement `stub.Output <- x` (possibly in the BODY of a select
+	// case), never itself an arm of a select: a stage that is sending cannot be interrupted (the model's [Send] states ignore interrupts;
+	// WriteOutput, the 5 s give-up, is toxic.go's own and modelled separately as [SendT]).
+	{
+		plain := ""
+		pipes, arms := 0, 0
+		for _, f := range p.files {
+			for _, d := range f.Decls {
+				fd, ok := d.(*ast.FuncDecl)
+				if !ok || fd.Body == nil || fd.Name.Name != "Pipe" || fd.Recv == nil {
+					continue
+				}
+				pipes++
+				ast.Inspect(fd.Body, func(x ast.Node) bool {
+					if cc, ok := x.(*ast.CommClause); ok && cc.Comm != nil {
+						if snd, ok := cc.Comm.(*ast.SendStmt); ok && strings.HasSuffix(show(fs, snd.Chan), ".Output") {
+							arms++
+						}
+					}
+					return true
+				})
+			}
+		}
+		if pipes >= 7 {
+			plain = boolS(arms == 0)
+		}
+		o.emit("toxic_sends_are_plain", "", "bool", plain, "true", "", "")
 
 		sc := ""
 		if fd := p.method("SlowCloseToxic", "Pipe"); fd != nil && fd.Body != nil {
